@@ -254,7 +254,40 @@ func runCLHTScenario(sc clhtScenario) clhtResult {
 		verifhook.Install(nil)
 	} else {
 		s := verifkit.NewSched(sc.Seed)
-		s.Policy = sc.Policy
+		s.Policy = strings.TrimSuffix(sc.Policy, "+stale")
+		if strings.HasSuffix(sc.Policy, "+stale") && sc.Resizes > 0 {
+			// hold the first resizer just before it takes the resize flag until another resize has completed and a few
+			// more steps have been taken: it then holds a table pointer that is no longer current
+			var base int64 = -1
+			after := 0
+			s.Choose = func(parked []*verifkit.G, rnd *rand.Rand) *verifkit.G {
+				var held *verifkit.G
+				var rest []*verifkit.G
+				for _, g := range parked {
+					if g.Name == "g1" && g.At == "rs.casFlag" {
+						held = g
+					} else {
+						rest = append(rest, g)
+					}
+				}
+				if held == nil {
+					base, after = -1, 0
+					return nil
+				}
+				done := m.totalGrowths.Load() + m.totalShrinks.Load()
+				if base < 0 {
+					base = done
+				}
+				if done > base {
+					after++
+				}
+				if len(rest) == 0 || after > 2+rnd.Intn(6) {
+					base, after = -1, 0
+					return held
+				}
+				return rest[rnd.Intn(len(rest))]
+			}
+		}
 		s.MaxSteps = 2000000
 		for i, fn := range fns {
 			s.Go("g"+strconv.Itoa(i+1), fn)
